@@ -88,7 +88,10 @@ func Harness_C18_static() {
 // hNyctMsg: a trip update and the vehicle position of the same trip, both
 // carrying the NYCT trip descriptor and an NYCT-format trip id, plus a plain entity.
 func hNyctMsg() *gtfsrt.FeedMessage {
-	msg := hRealtimeMsg()
+	// concrete ids throughout: footprints do not depend on the values, and sorting symbolic ids among concrete ones only multiplies paths
+	ver, plainTrip, plainVeh := "2.0", "plain-trip", "plain-vehicle"
+	msg := &gtfsrt.FeedMessage{Header: &gtfsrt.FeedHeader{GtfsRealtimeVersion: &ver}, Entity: []*gtfsrt.FeedEntity{
+		{Id: hStr("p1"), Vehicle: &gtfsrt.VehiclePosition{Vehicle: &gtfsrt.VehicleDescriptor{Id: &plainVeh}, Trip: &gtfsrt.TripDescriptor{TripId: &plainTrip}}}}}
 	tid := "012345_A..N" // the values do not matter for footprints: a concrete NYCT-format id keeps the queries small
 	route := "M"
 	train := "T"
@@ -106,5 +109,20 @@ func hNyctMsg() *gtfsrt.FeedMessage {
 	msg.Entity = append(msg.Entity,
 		&gtfsrt.FeedEntity{Id: hStr("n1"), TripUpdate: &gtfsrt.TripUpdate{Trip: mk(), StopTimeUpdate: []*gtfsrt.TripUpdate_StopTimeUpdate{stu}}},
 		&gtfsrt.FeedEntity{Id: hStr("n2"), Vehicle: &gtfsrt.VehiclePosition{Trip: mk()}})
+	// the extension's diagnostic paths: an assigned trip without train id, and entities that already carry a vehicle descriptor
+	tid2, fv := "012346_A..S", "feed-vehicle"
+	noTrain := &gtfsrt.TripDescriptor{TripId: &tid2, RouteId: &route}
+	proto.SetExtension(noTrain, gtfsrt.E_NyctTripDescriptor, &gtfsrt.NyctTripDescriptor{IsAssigned: &assigned})
+	tid3 := "012347_A..S"
+	withTrain := func() *gtfsrt.TripDescriptor {
+		id := tid3
+		td := &gtfsrt.TripDescriptor{TripId: &id, RouteId: &route}
+		proto.SetExtension(td, gtfsrt.E_NyctTripDescriptor, &gtfsrt.NyctTripDescriptor{TrainId: &train, IsAssigned: &assigned})
+		return td
+	}
+	msg.Entity = append(msg.Entity,
+		&gtfsrt.FeedEntity{Id: hStr("n3"), TripUpdate: &gtfsrt.TripUpdate{Trip: noTrain}},
+		&gtfsrt.FeedEntity{Id: hStr("n4"), TripUpdate: &gtfsrt.TripUpdate{Trip: withTrain(), Vehicle: &gtfsrt.VehicleDescriptor{Id: &fv}}},
+		&gtfsrt.FeedEntity{Id: hStr("n5"), Vehicle: &gtfsrt.VehiclePosition{Trip: withTrain(), Vehicle: &gtfsrt.VehicleDescriptor{Id: &fv}}})
 	return msg
 }
